@@ -701,7 +701,9 @@ func runLocksOnce(thorough bool, rng *hlib.Rng) *lockLog {
 			}
 		}
 		nF := 2 + rng.Intn(2)
-		holdF := time.Duration(nthF)*ttlF/4 + ttlF + ttlF/2 + 500*time.Millisecond
+		// (not a multiple of the ticker period: the explicit RenewLockLease at the end of the hold must not coincide
+		// with a renewal of the goroutine — both would present the same token and the later one is refused)
+		holdF := time.Duration(nthF)*ttlF/4 + ttlF + ttlF/2 + 730*time.Millisecond
 		wg.Add(6)
 		go func() {
 			defer wg.Done()
